@@ -9,7 +9,7 @@ RULE = ("pairs of fits on re-laid-out copies of one data set, for every model cl
         "over Dataset variables / list items (incl. items with different dim order), custom sample_name/feature_name, permuted samples "
         "(order-dependent methods exempt from the sample permutation); results compared label-wise up to the per-mode gauge the class "
         "leaves free (sign for real, phase for complex/POP); distinct by (class, relation, config)")
-RELATIONS = ["transpose", "feature_perm", "split_ds", "split_list", "split_list_revorder", "names", "sample_perm"]
+RELATIONS = ["transpose", "feature_perm", "split_ds", "split_list", "split_list_revorder", "names", "sample_perm", "two_sdims_transpose", "two_sdims_list", "list_sample_order"]
 ORDER_DEP = {"ExtendedEOF", "OPA", "POP", "HilbertEOF", "HilbertEOFRotator", "HilbertMCA", "HilbertCPCCA", "HilbertCCA", "HilbertRDA", "HilbertMCARotator", "HilbertCPCCARotator"}
 CLASSES = [c for c in zoo.ALL]
 
@@ -63,6 +63,14 @@ def relayout(A, rel, rng, second=False):
         return [a, b]
     if rel == "sample_perm":
         return A.isel(time=rng.permutation(A.sizes["time"]))
+    if rel == "two_sdims_transpose":
+        return A.transpose("lat", "lon", "time")
+    if rel == "two_sdims_list":
+        h = A.sizes["lon"] // 2
+        return [A.isel(lon=slice(0, h)), A.isel(lon=slice(h, None)).transpose("lat", "lon", "time")]
+    if rel == "list_sample_order":
+        h = A.sizes["lon"] // 2
+        return [A.isel(lon=slice(0, h)), A.isel(lon=slice(h, None)).isel(time=rng.permutation(A.sizes["time"]))]
     return A
 
 
@@ -182,20 +190,26 @@ def run(case):
 
     dataA = (X, Y) if two else X
     if two:
-        dataB = (lay(X), Y if rel in ("split_ds",) else lay(Y)) if zc != "multi.CCA" or rel not in ("split_list", "split_list_revorder", "split_ds") else (X, Y)
-        if zc == "multi.CCA" and rel in ("split_list", "split_list_revorder", "split_ds"):
+        dataB = (lay(X), Y if rel in ("split_ds",) else lay(Y)) if zc != "multi.CCA" or rel not in ("split_list", "split_list_revorder", "split_ds", "two_sdims_list", "list_sample_order") else (X, Y)
+        if zc == "multi.CCA" and rel in ("split_list", "split_list_revorder", "split_ds", "two_sdims_list", "list_sample_order"):
             return {"findings": [], "info": {"dist": {"cls": cls, "rel": rel, "outcome": "n/a"}}}
     else:
         dataB = lay(X)
     rot = {"n_modes": case["k"], "power": 1} if "Rotator" in zc else None
+    dimA = dimB = "time"
+    if rel in ("two_sdims_transpose", "two_sdims_list"):
+        dimA = dimB = ("time", "lat")
+        for c_ in (cfgA, cfgB):
+            if "use_coslat" in c_:
+                c_["use_coslat"] = False
     try:
-        mA, bA = zoo.fit(zc, dataA, "time", cfgA, rot_cfg=rot)
+        mA, bA = zoo.fit(zc, dataA, dimA, cfgA, rot_cfg=rot)
     except Exception as e:  # noqa: BLE001
         if "did not converge" in str(e):
             return {"findings": [], "info": {}}
         raise
     try:
-        mB, bB = zoo.fit(zc, dataB, "time", cfgB, rot_cfg=rot)
+        mB, bB = zoo.fit(zc, dataB, dimB, cfgB, rot_cfg=rot)
     except Exception as e:  # noqa: BLE001
         if "did not converge" in str(e):
             return {"findings": [], "info": {}}
